@@ -1,5 +1,6 @@
 import NanoVerif.Model.Naming
 import NanoVerif.Model.Csv
+import NanoVerif.Proofs.Shape
 import NanoVerif.Props.C01
 import Mathlib.Tactic.Linarith
 /-
@@ -139,5 +140,20 @@ example : fromFilename "emoji_u1f469_1f3fd_200d_1f91d.svg".toList = some [0x1f46
 example : fromFilename "1f9d1-200d-1f91d.svg".toList = some [0x1f9d1, 0x200d, 0x1f91d] := by decide +kernel
 example : glyphName id [0x1F600, 0x200D] = some "g_1f600_200d".toList := by decide +kernel
 example : glyphName id [0x41, 0x62] = some "A_b".toList := by decide +kernel
+
+/-- **C04.2 (own sequence → own glyph)**: model of GSUB ligature substitution (first match in table order at each
+position).  If the table lists longer ligatures first (what fontTools writes; observed on every real font) and no two
+rules have the same glyph sequence (distinct sources), the input that is exactly a source's sequence shapes to exactly
+that source's ligature glyph — in particular when another source's sequence is a proper prefix of it. -/
+theorem shape_own_sequence (rules : List LigRule) (r : LigRule) (hr : r ∈ rules) (hne : r.seq ≠ [])
+    (hsorted : LongestFirst rules) (hdistinct : ∀ a ∈ rules, ∀ b ∈ rules, a.seq = b.seq → a = b) (fuel : Nat) :
+    shapeLig rules (fuel + 1) r.seq = [r.target] :=
+  NanoVerif.shape_own_sequence rules r hr hne hsorted hdistinct fuel
+
+/-- prefix-related sequences (man, man+ZWJ+woman, man+ZWJ+woman+ZWJ+girl): each shapes to its own glyph … -/
+example : shapeLig [⟨[1, 9, 2, 9, 3], 30⟩, ⟨[1, 9, 2], 20⟩] 5 [1, 9, 2, 9, 3] = [30] ∧
+    shapeLig [⟨[1, 9, 2, 9, 3], 30⟩, ⟨[1, 9, 2], 20⟩] 3 [1, 9, 2] = [20] := by decide +kernel
+/-- … and the order hypothesis is needed: listed shortest first, the long sequence falls apart -/
+theorem shortest_first_breaks : shapeLig [⟨[1, 9, 2], 20⟩, ⟨[1, 9, 2, 9, 3], 30⟩] 5 [1, 9, 2, 9, 3] ≠ [30] := by decide +kernel
 
 end NanoVerif.C04
